@@ -345,8 +345,12 @@ def rule_sh2(ctx, only=None):
 # np.sort / np.argsort / np.diff default to the LAST axis (safe); the calls
 # below default to all axes / the flattened array
 AXIS_FUNCS = {"np.flip": 1, "np.roll": 2, "np.cumsum": 1, "np.cumprod": 1,
-              "np.squeeze": 1}
-AXIS_METHODS = {"squeeze", "cumsum"}
+              "np.squeeze": 1,
+              # counts / sums: without an axis they merge all units
+              "np.count_nonzero": 1, "np.sum": 1, "np.mean": 1, "np.prod": 1}
+AXIS_METHODS = {"squeeze", "cumsum", "sum", "mean", "prod"}
+AXIS_REDUCTIONS = {"np.count_nonzero", "np.sum", "np.mean", "np.prod", "sum",
+                   "mean", "prod"}
 # functions whose argument is one-dimensional by construction, or that belong
 # to a not-applicable property (reason frozen per entry)
 AX1_EXEMPT = {}
@@ -357,9 +361,10 @@ def rule_ax1(ctx, rels, scope=None):
     from ..flow import dotted
     from ..project import norm_stmt
     r = ctx.r
-    r.rule("AX1", "in vectorised code a reordering / cumulative / squeezing "
-                  "NumPy call whose default is every axis / the flattened "
-                  "array (np.flip, np.roll, np.cumsum, np.squeeze) names its "
+    r.rule("AX1", "in vectorised code a reordering / cumulative / squeezing / "
+                  "counting NumPy call whose default is every axis / the "
+                  "flattened array (np.flip, np.roll, np.cumsum, np.squeeze, "
+                  "np.count_nonzero, np.sum, np.mean, np.prod) names its "
                   "axis; np.sort / np.argsort default to the last axis and "
                   "are not concerned")
     n = 0
@@ -405,9 +410,15 @@ def rule_ax1(ctx, rels, scope=None):
                         "AX1", f"{f.fq}|{norm_stmt(st)[:100]}", loc(f, c),
                         norm_stmt(st)[:160],
                         f"`{dotted(c)[:60]}` has no axis: on a composite "
-                        "(more than one unit) it reorders across units as "
-                        "well as within them, so values are exchanged "
-                        "between different units of the array",
+                        "(more than one unit) it " + (
+                            "counts / adds up over all units at once, so one "
+                            "decision or value is shared by units that need "
+                            "different ones"
+                            if (nm in AXIS_REDUCTIONS or nm.split(".")[-1]
+                                in AXIS_REDUCTIONS) else
+                            "reorders across units as well as within them, "
+                            "so values are exchanged between different "
+                            "units of the array"),
                         instance=inst)
     if n == 0:
         r.note("AX1", ",".join(rels), "", "no axis-sensitive call in scope")
@@ -1390,10 +1401,16 @@ def _hom_extra_table():
               [dict(arr=("n",))], {}, no))
     t.append(("hyperboloid_coords", fn, "hyperboloid_coords",
               [dict(arr=("n",))], {}, no))
+    t.append(("spacelike_to", fn, "spacelike_to",
+              [dict(arr=(4,), outer=())], {}, no))
+    t.append(("timelike_to", fn, "timelike_to",
+              [dict(arr=(4,), outer=())], {}, no))
     return t
 
 
-HOM_ARRAY_ARGS.update({"kleinian_coords": (0,), "hyperboloid_coords": (0,)})
+HOM_ARRAY_ARGS.update({"kleinian_coords": (0,), "hyperboloid_coords": (0,),
+                       "spacelike_to": (0,), "timelike_to": (0,)})
+
 
 
 def _run_hom_table(ctx, rid, it, table, home_rel, complex_scale=False,
@@ -1457,10 +1474,11 @@ def _run_hom_table(ctx, rid, it, table, home_rel, complex_scale=False,
             if x == "@outer":
                 return AArr(O, HM.INV)
             if isinstance(x, dict) and "arr" in x:
+                Ox = x.get("outer", O)
                 if k in HOM_ARRAY_ARGS.get(label.replace(" [complex]", ""),
                                            ()):
-                    return AArr(O + x["arr"], tag(f"arg{k}", "Point"))
-                return AArr(O + x["arr"], HM.INV)
+                    return AArr(Ox + x["arr"], tag(f"arg{k}", "Point"))
+                return AArr(Ox + x["arr"], HM.INV)
             if isinstance(x, dict):
                 return mk(x, ctx.p.get_class(x.get("rel", home_rel),
                                              x["cls"]), nm=f"arg{k}")
@@ -1533,6 +1551,10 @@ def _run_hom_table(ctx, rid, it, table, home_rel, complex_scale=False,
                 verdict, detail = "undecided", t.tainted
         if failed is not None and verdict in ("proved", "object"):
             verdict, detail = "undecided", failed
+        # E7 (a branch / validity guard decided by a scale-dependent test)
+        # is not a violation: the library's validity guards compare raw
+        # homogeneous data with absolute tolerances by design (timelike_to,
+        # the constructors), and the interpreter assumes they pass
         hard = [ev for ev in events if ev["kind"] in ("E2", "E5", "E1c", "E6")
                 or (ev["kind"] == "E3" and (
                     ev["fn"] is None or ev["fn"].name not in HOM_ROWSUM_OK))]
